@@ -30,6 +30,7 @@ import (
 	"strconv"
 	"strings"
 	"sync"
+	"sync/atomic"
 	"time"
 
 	vx "go.minekube.com/gate/pkg/verifexport"
@@ -360,6 +361,76 @@ func runParX(nf int, segs [][]callT, cross, yield, chain bool) string {
 	})
 }
 
+// ---------- registration racing completion (the check-then-act window inside ThenAccept) ----------
+
+// runRace: N fresh futures; for each, G registrars (ThenAccept, or ThenCompose whose function returns an already
+// completed future) and one completer are released together.  Every callback must run exactly once and every
+// composed future must end completed; on correct code these counts are exact, whatever the schedule.
+// No timeouts: nothing here can block, a lost callback simply never runs.
+func runRace(G, N int, compose bool, rng *hx.Rng) string {
+	ran0, ran2, stuck := 0, 0, 0
+	doneF := vx.C42New()
+	doneF.Complete(1)
+	counts := make([]atomic.Int32, G)
+	outs := make([]*vx.C42Future, G)
+	for it := 0; it < N; it++ {
+		f := vx.C42New()
+		var ready, gate atomic.Int32
+		var wg sync.WaitGroup
+		delay := rng.Intn(64)
+		for i := 0; i < G; i++ {
+			counts[i].Store(0)
+			outs[i] = nil
+			wg.Add(1)
+			go func(i int) {
+				defer wg.Done()
+				ready.Add(1)
+				for gate.Load() == 0 {
+					runtime.Gosched()
+				}
+				if compose && i%2 == 0 {
+					outs[i] = vx.C42ThenCompose(f, func(int) *vx.C42Future { counts[i].Add(1); return doneF })
+				} else {
+					f.ThenAccept(func(int) { counts[i].Add(1) })
+				}
+			}(i)
+		}
+		wg.Add(1)
+		go func() {
+			defer wg.Done()
+			ready.Add(1)
+			for gate.Load() == 0 {
+				runtime.Gosched()
+			}
+			for k := 0; k < delay; k++ {
+				_ = gate.Load()
+			}
+			f.Complete(it + 2)
+		}()
+		for int(ready.Load()) < G+1 {
+			runtime.Gosched()
+		}
+		gate.Store(1)
+		wg.Wait()
+		for i := 0; i < G; i++ {
+			switch c := counts[i].Load(); {
+			case c == 0:
+				ran0++
+			case c > 1:
+				ran2++
+			}
+			if outs[i] != nil {
+				completed := false
+				outs[i].ThenAccept(func(int) { completed = true })
+				if !completed {
+					stuck++
+				}
+			}
+		}
+	}
+	return fmt.Sprintf("ran0=%d ran2=%d stuck=%d", ran0, ran2, stuck)
+}
+
 // ---------- generators ----------
 
 type gen struct {
@@ -517,6 +588,12 @@ func main() {
 	}
 	cross3 := [][]callT{{T(0, A(1, L(1))), T(1, A(2, L(2))), T(2, A(0, L(3)))}, {K(0, 5)}, {K(1, 6)}, {K(2, 7)}}
 	run.Case("cross-fixed", progLine("cross", 3, cross3), runPar(3, cross3, true, false))
+
+	// ---- registrations racing one completion on fresh futures (check-then-act window of ThenAccept) ----
+	for i, n := 0, run.Scale(6, 40); i < n; i++ {
+		G, N, comp := 2+r.Intn(3), run.Scale(6000, 20000), i%2
+		run.Case("race", fmt.Sprintf("race %d %d %d", G, N, comp), hx.Guard(10*time.Minute, func() string { return runRace(G, N, comp == 1, r) }))
+	}
 
 	// ---- generated sequential programs: exact log correspondence ----
 	for i, n := 0, run.Scale(4000, 40000); i < n; i++ {
